@@ -1,4 +1,3 @@
-<<<<<<< HEAD
 (* Proofs/Rank.v — vrank at XR: every valid element gets #{before} + (#{equal} + 1)/2 among the valid
    elements (/ valid count when pct), nulls get null, every output slot is written.            *)
 From Coq Require Import Reals Lra Lia List Sorting Permutation ZArith Bool.
@@ -514,220 +513,4 @@ Proof.
         rewrite Hcb, Hce, Hnv, (Permutation_length HP). reflexivity.
       * apply Nat.ltb_ge in Etn. specialize (HFnull t ltac:(lia)).
         unfold Written in HFnull. rewrite Et in HFnull. exact HFnull.
-=======
-(* Proofs/Rank.v — ts_vrank (Model/Cmp.v) with integer elements and the output arithmetic in XR = option R:
-   for every series, window, min_periods, pct / rev flag, position and both driver bodies the output is the
-   average rank of the current element among the valid elements of its window,
-       #{a in V' : a < x} + 1 + #{a in V' : a = x} / 2        (V' = valid window without the current element)
-   in the reversed form (n + 1) - that, divided by n = |V'| + 1 with pct; null when x is null or the mask applies. *)
-From Coq Require Import ZArith List Lia Bool Reals Lra.
-From Tevec Require Import Base.Prelude Base.Num Base.XR Model.Driver Proofs.Driver Model.Cmp Proofs.IdxRun
-     Spec.Extrema Proofs.Cmp.
-Import ListNotations.
-
-Lemma count_lt_app x l1 l2 : count_lt x (l1 ++ l2) = count_lt x l1 + count_lt x l2.
-Proof. unfold count_lt. rewrite filter_app, app_length. reflexivity. Qed.
-Lemma count_eq_app x l1 l2 : count_eq x (l1 ++ l2) = count_eq x l1 + count_eq x l2.
-Proof. unfold count_eq. rewrite filter_app, app_length. reflexivity. Qed.
-
-(* smaller + equal + greater = all *)
-Lemma count_partition x l : count_lt x l + count_eq x l + count_gt x l = length l.
-Proof.
-  unfold count_lt, count_eq, count_gt. induction l as [|a l IH]; [reflexivity|]. cbn [filter length].
-  destruct (Z.ltb_spec a x), (Z.eqb_spec a x), (Z.ltb_spec x a); cbn [length]; lia.
-Qed.
-
-Section RankZ.
-  Context {T : Type} {DT : IsNone T Z}.
-  Variable xs : list T.
-  Notation ov := (ov xs).
-  Notation ovs := (ovs xs).
-  Notation count := (count xs).
-
-  Lemma to_opt_valid (v : T) : not_none v = true -> to_opt v = Some (unwrap v).
-  Proof. unfold not_none, to_opt. destruct (is_none v); [discriminate|reflexivity]. Qed.
-  Lemma to_opt_null (v : T) : not_none v = false -> to_opt v = None.
-  Proof. unfold not_none, to_opt. destruct (is_none v); [reflexivity|discriminate]. Qed.
-
-  (* the recount loop over positions [i, i + cnt) *)
-  Lemma rank_loop_spec (x : Z) : forall cnt i (r : R) nrep,
-    i + cnt <= length xs ->
-    rank_loop (B := XR) xs x i cnt (Some r) nrep =
-    Ok (Some (r + INR (count_lt x (validZ (seg i (i + cnt) ovs))))%R,
-        nrep + count_eq x (validZ (seg i (i + cnt) ovs))).
-  Proof.
-    induction cnt as [|cnt IH]; intros i r nrep Hlen.
-    - rewrite Nat.add_0_r, seg_nil. cbn. rewrite Rplus_0_r, Nat.add_0_r. reflexivity.
-    - destruct (nth_error_Some_lt xs i) as [v Hv]; [lia|].
-      assert (Hseg : validZ (seg i (i + S cnt) ovs) = validZ [to_opt v] ++ validZ (seg (S i) (S i + cnt) ovs)).
-      { rewrite (@seg_cons _ i (i + S cnt) ovs (to_opt v)); [|lia|rewrite ovs_nth, Hv; reflexivity].
-        replace (i + S cnt) with (S i + cnt) by lia.
-        change (to_opt v :: seg (S i) (S i + cnt) ovs) with ([to_opt v] ++ seg (S i) (S i + cnt) ovs).
-        apply validZ_app. }
-      rewrite Hseg, count_lt_app, count_eq_app.
-      cbn [rank_loop]. rewrite (uget_ok xs i v Hv). cbn [bind].
-      destruct (not_none v) eqn:Ev.
-      + rewrite (to_opt_valid v Ev). cbn [validZ flat_map app].
-        unfold count_lt at 1, count_eq at 1. cbn [filter]. cbn [nltb neqb NumZ].
-        destruct (Z.ltb_spec (unwrap v) x) as [Hlt|Hge].
-        * change (@nadd XR NumXR (Some r) (@none XR NumXR)) with (Some (r + 1)%R). rewrite IH by lia.
-          replace (unwrap v =? x)%Z with false by (symmetry; apply Z.eqb_neq; lia).
-          cbn [length]. rewrite plus_INR. f_equal. apply f_equal2; [f_equal; cbn [INR]; lra|lia].
-        * destruct (Z.eqb_spec (unwrap v) x) as [Heq|Hne].
-          -- rewrite IH by lia. cbn [length]. f_equal. apply f_equal2; [f_equal; cbn [INR]; lra|lia].
-          -- rewrite IH by lia. cbn [length]. f_equal.
-      + rewrite (to_opt_null v Ev). cbn [validZ flat_map app]. rewrite IH by lia.
-        unfold count_lt at 2, count_eq at 2. cbn. reflexivity.
-  Qed.
-
-  Variable wd : nat.
-  Hypothesis Hwd : 1 <= wd.
-  Variables (mp : nat) (pct rev : bool).
-
-  (* what the closure computes at position k, as a function of the window *)
-  Definition rank_at (k : nat) : XR :=
-    match ov k with
-    | Some x =>
-        let V' := validZ (seg (wstart wd k) k ovs) in
-        rank_out (B := XR) mp pct rev (count (wstart wd k) (S k))
-                 (Some (1 + INR (count_lt x V'))%R) (1 + count_eq x V')
-    | None => rank_out (B := XR) mp pct rev (count (wstart wd k) (S k)) None 1
-    end.
-
-  Lemma vrank_cb_step k v n :
-    nth_error xs k = Some v -> n = count (wstart wd k) k ->
-    exists n' o, vrank_cb (B := XR) mp (wd - 1) pct rev xs n (start_of wd k, k, v) = Ok (n', o) /\
-                 n' = count (wstart wd (S k)) (S k) /\ o = rank_at k.
-  Proof.
-    intros Hv Hn.
-    assert (Hk : k < length xs) by (apply nth_error_Some; congruence).
-    assert (Hcnt : count (wstart wd k) (S k) = count (wstart wd k) k + isv v)
-      by (apply count_snoc; [unfold wstart; lia|exact Hv]).
-    assert (Hfrom : match start_of wd k with Some st => st | None => 0 end = wstart wd k).
-    { rewrite (start_of_wstart wd Hwd). destruct (k <? wd - 1) eqn:E; [|reflexivity].
-      apply Nat.ltb_lt in E. unfold wstart. lia. }
-    unfold vrank_cb. rewrite Hfrom.
-    (* the post step, for any n1 = count of the full window *)
-    assert (Hpost : forall o : XR, exists n',
-              (do n2 <- (if wd - 1 <=? k then
-                           match start_of wd k with
-                           | None => Panic UnwrapNone
-                           | Some st => do v0 <- uget xs st;
-                                        if not_none v0 then usub (count (wstart wd k) (S k)) 1
-                                        else Ok (count (wstart wd k) (S k))
-                           end
-                         else Ok (count (wstart wd k) (S k)));
-               Ok (n2, o)) = Ok (n', o) /\ n' = count (wstart wd (S k)) (S k)).
-    { intros o. rewrite (start_of_wstart wd Hwd).
-      destruct (k <? wd - 1) eqn:E.
-      - apply Nat.ltb_lt in E. replace (wd - 1 <=? k) with false by (symmetry; apply Nat.leb_gt; lia).
-        cbn [bind]. eexists. split; [reflexivity|]. f_equal. unfold wstart. lia.
-      - apply Nat.ltb_ge in E. replace (wd - 1 <=? k) with true by (symmetry; apply Nat.leb_le; lia).
-        destruct (nth_error_Some_lt xs (wstart wd k)) as [v0 Hv0]; [unfold wstart; lia|].
-        rewrite (uget_ok xs _ _ Hv0). cbn [bind].
-        assert (Hc : count (wstart wd k) (S k) = isv v0 + count (wstart wd (S k)) (S k)).
-        { replace (wstart wd (S k)) with (S (wstart wd k)) by (unfold wstart; lia).
-          apply count_cons; [unfold wstart; lia|exact Hv0]. }
-        unfold isv in Hc. destruct (not_none v0).
-        + unfold usub. replace (1 <=? count (wstart wd k) (S k)) with true
-            by (symmetry; apply Nat.leb_le; lia).
-          cbn [bind]. eexists. split; [reflexivity|]. lia.
-        + cbn [bind]. eexists. split; [reflexivity|]. lia. }
-    unfold rank_at. rewrite (ov_nth xs k v Hv).
-    destruct (not_none v) eqn:Ev.
-    - rewrite (to_opt_valid v Ev).
-      pose proof (rank_loop_spec (unwrap v) (k - wstart wd k) (wstart wd k) 1 1) as HL.
-      replace (wstart wd k + (k - wstart wd k)) with k in HL by (unfold wstart; lia).
-      change (@none XR NumXR) with (Some 1%R). rewrite HL by lia. cbn [bind fst snd].
-      unfold isv in Hcnt. rewrite Ev in Hcnt.
-      replace (S n) with (count (wstart wd k) (S k)) by lia.
-      destruct (Hpost (rank_out mp pct rev (count (wstart wd k) (S k))
-                         (Some (1 + INR (count_lt (unwrap v) (validZ (seg (wstart wd k) k ovs))))%R)
-                         (1 + count_eq (unwrap v) (validZ (seg (wstart wd k) k ovs))))) as (n' & H1 & H2).
-      exists n'. eexists. split; [exact H1|]. split; [exact H2|reflexivity].
-    - rewrite (to_opt_null v Ev). cbn [bind].
-      unfold isv in Hcnt. rewrite Ev in Hcnt.
-      replace n with (count (wstart wd k) (S k)) by lia.
-      destruct (Hpost (rank_out (B := XR) mp pct rev (count (wstart wd k) (S k)) nnan 1)) as (n' & H1 & H2).
-      exists n'. eexists. split; [exact H1|]. split; [exact H2|reflexivity].
-  Qed.
-End RankZ.
-
-(* ---- the closed form ------------------------------------------------------------------------------ *)
-(* average rank of x among V' ∪ {x}: ascending, descending, as a fraction of n = |V'| + 1 *)
-Definition avg_rank (pct rev : bool) (x : Z) (V' : list Z) : R :=
-  let n := S (length V') in
-  let asc := (1 + INR (count_lt x V') + INR (count_eq x V') / 2)%R in
-  let r := if rev then (INR (n + 1) - asc)%R else asc in
-  if pct then (r / INR n)%R else r.
-
-Lemma rank_out_valid mp pct rev n (lt eq : nat) :
-  1 <= n ->
-  rank_out (B := XR) mp pct rev n (Some (1 + INR lt)%R) (1 + eq) =
-  if mp <=? n then
-    Some (let asc := (1 + INR lt + INR eq / 2)%R in
-          let r := if rev then (INR (n + 1) - asc)%R else asc in
-          if pct then (r / INR n)%R else r)
-  else None.
-Proof.
-  intros Hn. unfold rank_out. destruct (mp <=? n); [|reflexivity].
-  assert (Hhalf : @half XR NumXR = Some (1 / 2)%R).
-  { unfold half. change (@none XR NumXR) with (Some 1%R). change (@ntwo XR NumXR) with (Some 2%R).
-    apply xdiv_some. lra. }
-  rewrite Hhalf. replace (1 + eq - 1) with eq by lia. rewrite !xofnat.
-  assert (Hn0 : INR n <> 0%R) by (apply not_0_INR; lia).
-  destruct rev; cbn [negb]; rewrite ?xmul_some, ?xadd_some, ?xsub_some;
-    destruct pct; rewrite ?(xdiv_some _ _ Hn0); f_equal; cbv zeta; lra.
-Qed.
-
-Lemma rank_out_null mp pct rev n nrep : rank_out (B := XR) mp pct rev n None nrep = None.
-Proof. unfold rank_out. destruct (mp <=? n); [|reflexivity]. destruct rev, pct; reflexivity. Qed.
-
-Section RankFinal.
-  Context {T : Type} {DT : IsNone T Z}.
-
-  Theorem ts_vrank_spec body w mp pct rev (xs : list T) :
-    1 <= w -> 1 <= length xs ->
-    exists out, ts_vrank (B := XR) body w mp pct rev xs = Done out /\ length out = length xs /\
-      forall i, i < length xs ->
-        nth_error out i =
-        Some (match nth_error (map to_opt xs) i with
-              | Some (Some x) =>
-                  let V' := validZ (seg (wstart w i) i (map to_opt xs)) in
-                  if cmp_mp mp (cmp_window w xs) <=? S (length V') then Some (avg_rank pct rev x V')
-                  else None
-              | _ => None
-              end).
-  Proof.
-    intros Hw Hlen. unfold ts_vrank. set (wd := cmp_window w xs). set (m := cmp_mp mp wd).
-    assert (Hwd : 1 <= wd) by (unfold wd, cmp_window; lia).
-    assert (Heff : eff_window body wd (length xs) = wd)
-      by (unfold eff_window, wd, cmp_window; destruct body; lia).
-    destruct (@idx_run_spec T nat XR (vrank_cb m (wd - 1) pct rev xs) xs body wd
-                (fun k n => n = count xs (wstart wd k) k)
-                (fun k o => o = rank_at xs wd m pct rev k) 0 Hwd) as (out & H1 & H2 & H3).
-    { assert (H0 : wstart wd 0 = 0) by (unfold wstart; lia). rewrite H0, count_nil. reflexivity. }
-    { intros k v n Hv Hn. rewrite Heff. apply vrank_cb_step; assumption. }
-    exists out. split; [exact H1|]. split; [exact H2|].
-    apply nth_from_rel with (P := fun k o => o = rank_at xs wd m pct rev k); [exact H2|exact H3|].
-    intros i o Hi ->. unfold rank_at. fold (ovs xs). rewrite ovs_nth.
-    unfold wd, cmp_window. rewrite wstart_clamp by exact Hi. fold (cmp_window w xs). fold wd.
-    unfold ov. destruct (nth_error xs i) as [v|] eqn:Ev; [|apply nth_error_None in Ev; lia].
-    cbn [option_map]. destruct (to_opt v) as [x|] eqn:Ex.
-    - assert (Hc : count xs (wstart w i) (S i) = S (length (validZ (seg (wstart w i) i (ovs xs))))).
-      { rewrite (count_snoc xs (wstart w i) i v); [|unfold wstart; lia|exact Ev].
-        unfold count, isv. rewrite to_opt_not_none, Ex. lia. }
-      rewrite Hc, rank_out_valid by lia. reflexivity.
-    - apply rank_out_null.
-  Qed.
-End RankFinal.
-
-(* the descending form is the ascending rank from the other end: #greater + 1 + #equal / 2 *)
-Lemma avg_rank_rev_gt x V' :
-  avg_rank false true x V' = (1 + INR (count_gt x V') + INR (count_eq x V') / 2)%R.
-Proof.
-  unfold avg_rank. pose proof (count_partition x V') as HP.
-  replace (S (length V') + 1) with (count_lt x V' + count_eq x V' + count_gt x V' + 2) by lia.
-  rewrite !plus_INR. cbn [INR]. lra.
->>>>>>> 1787ae3b2f5f60099e7ccdb4d45cc7c993486b1f
 Qed.
